@@ -859,9 +859,10 @@ func (e *Executor) Execute(ctx context.Context, m File) (err error) {
 			}
 		}
 	}
-	// The non-applied part of the file may have been edited since the last
-	// attempt, keep the total number of statements in sync with the file.
+	// The non-applied part of the file may have been edited since the last attempt,
+	// keep the total number of statements and the file hash in sync with the file.
 	r.Total = len(stmts)
+	r.Hash = hash
 	e.log.Log(LogFile{m, r.Version, r.Description, r.Applied})
 	if err := e.fileChecks(ctx, m, r); err != nil {
 		e.log.Log(LogError{Error: err})
